@@ -284,11 +284,14 @@ func loaderMapping(c *Ctx) (string, string, bool) {
 			}
 		}
 	}
-	// the appended suffix: BinOp ADD of param and const
+	// the appended suffix: BinOp ADD of param and const; the directory prefix may be prepended the same way
+	// (const + name) instead of through fmt.Sprintf
 	allInstrs(fn, func(in ssa.Instruction) {
 		if b, ok := in.(*ssa.BinOp); ok && b.Op.String() == "+" {
 			if s, ok := c.constStringOrInitVar(b.Y); ok {
 				appended = s
+			} else if s, ok := c.constStringOrInitVar(b.X); ok && format == "" && !strings.Contains(s, "%") {
+				format = s + "%s"
 			}
 		}
 	})
